@@ -174,6 +174,8 @@ class Machine:
             return bytes([0x27, self.L + 1]) + (seed or b"\x01")
         if sym == "keyL-":
             return bytes([0x27, self.L + 1]) + wrong
+        if sym == "keyL~":  # the right key with one more byte (same first byte, same prefix)
+            return bytes([0x27, self.L + 1]) + seed + b"\x00"
         if sym == "keyL+sup":
             return bytes([0x27, (self.L + 1) | 0x80]) + (seed or b"\x01")
         if sym == "seedM":
@@ -280,6 +282,8 @@ class Machine:
         if pre[2] is not None and post[2] is not None and post[2] != pre[2]:
             ctx.kind("sm-event:pending-seed-replaced")
         ctx.nontrivial((self.real.seed, self.mask, pre, adv > 40, pdu))
+        if len(self.lines) >= 40000:  # bounded memory in the deep (thorough) enumerations; every line is self-contained
+            self.flush()
 
     def dfs(self, alphabet, depth):
         snap = self.snapshot()
@@ -420,7 +424,7 @@ def explore(ctx, mode):
     # suppressed variants and the other models, shallower
     for r in (reals1[1:] + [reals1[0]]) if not quick else reals1[1:2]:
         m = Machine(ctx, env, r, mode)
-        m.dfs(["seedL", "keyL+", "keyL+sup", "keyL-", "tp", "tpSup", "dscSup", "reset", "neg", "gap"], 3 if quick else 4)
+        m.dfs(["seedL", "keyL+", "keyL+sup", "keyL-", "keyL~", "tp", "tpSup", "dscSup", "reset", "neg", "gap"], 3 if quick else 4)
         m.flush()
         machines.append(m)
     # idle boundary
